@@ -3,12 +3,15 @@ package main
 // engine "envconc": generation, the concurrent run against the solo oracle, the -race child
 
 import (
+	"context"
 	"fmt"
 	"os"
 	"strconv"
 	"strings"
 	"sync"
 	"time"
+
+	"github.com/jig/lisp"
 )
 
 type envconcEngine struct{}
@@ -29,10 +32,137 @@ func (e *envconcEngine) generate(r *rng, n int, tier string, emit func(string)) 
 	// k evaluations that are ALL deep inside a non-tail recursion at the same time
 	emit(fmt.Sprintf("envconc k=12 reps=2 seed=%d only=%d", 1+r.intn(1000000000), len(envTemplates)-1))
 	emit(fmt.Sprintf("envconc k=16 reps=1 seed=%d only=%d", 1+r.intn(1000000000), len(envTemplates)-1))
+	// evaluations that only READ globals made by an earlier evaluation (a pending future, a failing one, a memoized
+	// function, an atom, a closure), some of them under a short deadline of their own
+	emit(fmt.Sprintf("envconc shared reps=3 seed=%d", 1+r.intn(1000000000)))
+	if tier == "thorough" {
+		for i := 0; i < 6; i++ {
+			emit(fmt.Sprintf("envconc shared reps=4 seed=%d", 1+r.intn(1000000000)))
+		}
+	}
 	for i := 0; i < n; i++ {
 		k := []int{2, 4, 8, 16}[r.intn(4)]
 		emit(fmt.Sprintf("envconc k=%d reps=%d seed=%d", k, 2+r.intn(2), 1+r.intn(1000000000)))
 	}
+}
+
+const envSharedSetup = `(do
+ (def sh-fut (future (do (sleep 120) 42)))
+ (def sh-err (future (do (sleep 90) (throw {:why :planned}))))
+ (def sh-memo (memoize (fn [n] (+ n 1000))))
+ (def sh-atom (atom {:a 1 :b [1 2 3]}))
+ (def sh-map {:k1 "v1" :k2 [1 2]})
+ (def sh-closure (let [n 10] (fn [x] (+ x n))))
+ (def sh-done (future 7))
+ nil)`
+
+// the readers: none defines, swaps or cancels anything
+func envSharedReaders(r *rng) (patient, impatient []string) {
+	patient = []string{
+		"(+ 1 @sh-fut)",
+		"(try @sh-err (catch e e))",
+		"(do @sh-fut [(future-cancelled? sh-fut) (future-done? sh-fut) @sh-fut])",
+		"[(get @sh-atom :a) (count (get @sh-atom :b)) (get sh-map :k1) (sh-closure 5) @sh-done (future-cancelled? sh-done)]",
+	}
+	for i := 0; i < 5; i++ {
+		patient = append(patient, fmt.Sprintf("(reduce + 0 (map sh-memo (range %d %d)))", 1000*i+r.intn(50), 1000*i+500+r.intn(200)))
+	}
+	for i := 0; i < 5; i++ {
+		patient = append(patient, fmt.Sprintf("(reduce + 0 (map (fn [i] (sh-memo %d)) (range 0 %d)))", r.intn(3), 300+r.intn(200)))
+	}
+	impatient = []string{"(+ 1 @sh-fut)", "(try @sh-err (catch e e))", "(do @sh-fut (sh-memo 3))", "(deref sh-fut)"}
+	return
+}
+
+func runEnvShared(reps int, seed uint64) string {
+	r := newRng(seed)
+	patient, impatient := envSharedReaders(r)
+	world := func() (*envWorld, error) {
+		w, err := newEnvWorld()
+		if err != nil {
+			return nil, err
+		}
+		setup, err := lisp.READ(envSharedSetup, nil, w.env)
+		if err != nil {
+			return nil, err
+		}
+		if _, err := lisp.EVAL(context.Background(), setup, w.env); err != nil {
+			return nil, err
+		}
+		return w, nil
+	}
+	evalText := func(ctx context.Context, w *envWorld, src string) string {
+		ast, err := lisp.READ(src, nil, w.env)
+		if err != nil {
+			return "read-error"
+		}
+		res, err := lisp.EVAL(ctx, ast, w.env)
+		if err != nil {
+			return renderErr(err)
+		}
+		return "ok " + render(res)
+	}
+	solo := make([]string, len(patient))
+	var wg0 sync.WaitGroup
+	for i := range patient {
+		wg0.Add(1)
+		go func(i int) { // (each on a world of its own: alone)
+			defer wg0.Done()
+			w, err := world()
+			if err != nil {
+				solo[i] = "setup-error"
+				return
+			}
+			solo[i] = evalText(context.Background(), w, patient[i])
+		}(i)
+	}
+	wg0.Wait()
+	for i := range solo {
+		if !strings.HasPrefix(solo[i], "ok ") {
+			return "setup-error " + oneLine(solo[i])
+		}
+	}
+	for rep := 0; rep < reps; rep++ {
+		w, err := world()
+		if err != nil {
+			return "setup-error"
+		}
+		obs := make([]string, len(patient))
+		ok := within(concWatchdog*3, func() {
+			var wg sync.WaitGroup
+			start := make(chan struct{})
+			for i := range patient {
+				wg.Add(1)
+				go func(i int) {
+					defer wg.Done()
+					<-start
+					obs[i] = evalText(context.Background(), w, patient[i])
+				}(i)
+			}
+			for j := range impatient {
+				wg.Add(1)
+				go func(j int) {
+					defer wg.Done()
+					<-start
+					ctx, cancel := context.WithTimeout(context.Background(), time.Duration(10+7*j+rep*5)*time.Millisecond)
+					defer cancel()
+					evalText(ctx, w, impatient[j]) // whatever it gets (a value or its timeout) is its own business
+				}(j)
+			}
+			close(start)
+			wg.Wait()
+		})
+		if !ok {
+			return "BLOCKED\t!evaluations reading shared globals did not finish"
+		}
+		for i := range patient {
+			if obs[i] != solo[i] {
+				return fmt.Sprintf("differs\t!an evaluation that only reads shared globals, %s, run next to other readers (some with a deadline of their own) returns %s ; alone %s",
+					patient[i], oneLine(obs[i])[:min(len(oneLine(obs[i])), 200)], oneLine(solo[i])[:min(len(oneLine(solo[i])), 200)])
+			}
+		}
+	}
+	return "ok"
 }
 
 func envconcParams(payload string) map[string]int {
@@ -73,6 +203,12 @@ func (e *envconcEngine) run(payload string) string {
 			return "violation\t!under -race: " + oneLine(marks[0])
 		}
 		return "ok"
+	}
+	if len(f) > 1 && f[1] == "shared" {
+		if p["reps"] < 1 || p["reps"] > 20 {
+			return "bad-case"
+		}
+		return runEnvShared(p["reps"], uint64(p["seed"]))
 	}
 	k := p["k"]
 	if k < 1 || k > envconcMaxProgs || p["reps"] < 1 || p["reps"] > 20 {
@@ -144,6 +280,9 @@ func (e *envconcEngine) classify(payload, obs string) string {
 	}
 	if strings.Contains(payload, " race") {
 		return "race/" + v
+	}
+	if strings.Contains(payload, " shared") {
+		return "shared-readers/" + v
 	}
 	return fmt.Sprintf("k=%d/%s", p["k"], v)
 }
